@@ -436,7 +436,7 @@ def gamma4(tier, seed):
     out.append({"id": "g4/capt/two_nots", "doc": doc_of(["push", {"$not": [{"mov": ["&a", "&a"]}]}, {"$not": [{"xor": ["&b", "&b"]}]}, "pop"]), "feature": "not_with_local_captures",
                 "capture_order": ["&a", "&b"], "env_dom": {}, "local_dom": {"&a": LD, "&b": LD}, "lemmas": CL})
     out.append({"id": "g4/capt/then_outer_capture", "doc": doc_of([{"$not": [{"mov": ["&a", "&a"]}]}, {"push": ["&r"]}, {"pop": ["&r"]}]), "feature": "not_with_local_captures",
-                "capture_order": ["&a", "&r"], "env_dom": {"&r": LD}, "local_dom": {"&a": LD}, "lemmas": CL})
+                "capture_order": ["&a", "&r"], "env_dom": {"&r": LD}, "local_dom": {"&a": LD}, "lemmas": CL + ("HX",)})
     out.append({"id": "g4/capt/outer_then_local", "doc": doc_of([{"push": ["&r"]}, {"$not": [{"mov": ["&a", "&a"]}]}, {"pop": ["&r"]}]), "feature": "not_with_local_captures",
                 "capture_order": ["&r", "&a"], "env_dom": {"&r": LD}, "local_dom": {"&a": LD}, "lemmas": CL})
     out.append({"id": "g4/capt/local_uses_outer", "doc": doc_of([{"push": ["&r"]}, {"$not": [{"mov": ["&a", "&r", "&a"]}]}, {"pop": ["&r"]}]), "feature": "not_with_local_captures",
